@@ -220,9 +220,23 @@ Proof.
     destruct (nth_error (m_ps st) i) as [[p [n|r0 t0]]|] eqn:NI; try (repeat split; assumption).
     assert (NOp : nil_ok (pp_nil p)).
     { rewrite Forall_forall in NO. apply (NO (p, PBlocked n)). eapply nth_error_In. exact NI. }
-    split; [exact T|]. split; [apply Forall_set_nth; assumption|]. cbn [m_d m_ps m_pushed].
-    intros k x. rewrite (rets_of_set_nth k _ i (p, PBlocked n)) by (assumption || reflexivity).
-    rewrite nil_ok_ret by exact NOp. specialize (C k x). cbn. lia.
+    assert (NONE : Inv d0 (mkM (m_d st) (set_nth (m_ps st) i (p, PDone (pp_nil p) t)) (m_outs st) (m_pushed st))).
+    { split; [exact T|]. split; [apply Forall_set_nth; assumption|]. cbn [m_d m_ps m_pushed].
+      intros k x. rewrite (rets_of_set_nth k _ i (p, PBlocked n)) by (assumption || reflexivity).
+      rewrite nil_ok_ret by exact NOp. specialize (C k x). cbn. lia. }
+    destruct (pp_cut p); [|exact NONE].
+    unfold bpop_poll. rewrite purge_no_ttl by exact T.
+    destruct (bpop_try (pp_left p) (m_d st) (pp_keys p)) as [[r d']|] eqn:BT; [|exact NONE].
+    destruct (bpop_try_shape _ _ _ _ _ BT) as [[-> ->]|(k1 & x1 & -> & _ & E1 & E2 & E3)].
+    + split; [exact T|]. split; [apply Forall_set_nth; assumption|]. cbn [m_d m_ps m_pushed].
+      intros k x. rewrite (rets_of_set_nth k _ i (p, PBlocked n)) by (assumption || reflexivity).
+      specialize (C k x). cbn. lia.
+    + split; [apply E3; exact T|]. split; [apply Forall_set_nth; assumption|]. cbn [m_d m_ps m_pushed].
+      intros k x. rewrite (rets_of_set_nth k _ i (p, PBlocked n)) by (assumption || reflexivity).
+      specialize (C k x). unfold ret_of. cbn [snd].
+      destruct (bytes_eqb_spec k1 k) as [->|N].
+      * rewrite E1, cnt_put_end in C. lia.
+      * rewrite (E2 k) by congruence. cbn. lia.
   - (* a command of another connection *)
     cbn [ok_ev] in OK. destruct (blocking_form args) as [[[lft keys] tmo]|] eqn:BF.
     + split; [exact T|]. cbn [m_d m_ps m_pushed]. split.
@@ -336,7 +350,8 @@ Proof.
       rewrite nth_error_set_nth_other by exact N; exact H.
   - destruct (nth_error (m_ps st) i) as [[q [n|r0 t0]]|] eqn:NI; try exact H.
     assert (N : i <> j) by (intros ->; congruence).
-    cbn [m_ps]. rewrite nth_error_set_nth_other by exact N. exact H.
+    destruct (if pp_cut q then bpop_poll (pp_left q) (pp_keys q) (m_d st) t1 else None) as [[r1 d1]|]; cbn [m_ps];
+      rewrite nth_error_set_nth_other by exact N; exact H.
   - destruct (blocking_form args) as [[[lft keys] tmo]|].
     + cbn [m_ps]. rewrite nth_error_app1; [exact H|]. apply nth_error_Some. congruence.
     + destruct (exec (m_d st) (t1 / 1000) t1 args hint). exact H.
@@ -399,8 +414,16 @@ Proof.
         exists n. rewrite nth_error_set_nth_other by exact N. exact NI.
   - destruct (nth_error (m_ps st) j) as [[q [n'|r0 t0]]|] eqn:NJ;
       try (right; split; [exact T|split; [exists n; exact NI|exact NE]]).
-    right. split; [exact T|]. cbn [m_d m_ps]. split; [|exact NE].
-    exists n. rewrite nth_error_set_nth_other by exact Q. exact NI.
+    assert (NONE : waiting i p k (mkM (m_d st) (set_nth (m_ps st) j (q, PDone (pp_nil q) t1)) (m_outs st) (m_pushed st))).
+    { split; [exact T|]. cbn [m_d m_ps]. split; [|exact NE].
+      exists n. rewrite nth_error_set_nth_other by exact Q. exact NI. }
+    destruct (pp_cut q); [|right; exact NONE].
+    unfold bpop_poll. rewrite purge_no_ttl by exact T.
+    destruct (bpop_try (pp_left q) (m_d st) (pp_keys q)) as [[r1 d1]|] eqn:BT; [|right; exact NONE].
+    left. exists j, q, r1, t1. cbn [m_ps]. split; [eapply nth_error_set_nth_same; exact NJ|].
+    split; [eapply bpop_try_reply; exact BT|].
+    unfold not_done_in. destruct (nth_error ps0 j) as [[q0 [m|r0 t0]]|] eqn:N0; try exact I.
+    specialize (SF j q0 r0 t0 N0). congruence.
   - destruct (blocking_form args) as [[[lft keys] tmo]|] eqn:BF.
     + right. split; [exact T|]. cbn [m_d m_ps]. split; [|exact NE].
       exists n. rewrite nth_error_app1; [exact NI|]. apply nth_error_Some. congruence.
@@ -591,7 +614,8 @@ Proof.
       rewrite nth_error_set_nth_other by exact N; exact NI.
   - assert (N : j <> i) by (intros ->; exact (NT t eq_refl)).
     destruct (nth_error (m_ps st) j) as [[q [m|r0 t0]]|]; try exact NI.
-    cbn [m_ps]. rewrite nth_error_set_nth_other by exact N. exact NI.
+    destruct (if pp_cut q then bpop_poll (pp_left q) (pp_keys q) (m_d st) t else None) as [[r1 d1]|]; cbn [m_ps];
+      rewrite nth_error_set_nth_other by exact N; exact NI.
   - destruct (blocking_form args) as [[[lft keys] tmo]|].
     + cbn [m_ps]. rewrite nth_error_app1; [exact NI|]. apply nth_error_Some. congruence.
     + destruct (exec (m_d st) (t / 1000) t args hint). exact NI.
@@ -661,9 +685,10 @@ Proof.
        [rewrite (nth_error_set_nth_same _ _ _ _ NI) in H; inversion H; subst; try (right; reflexivity)
        |rewrite nth_error_set_nth_other in H by exact N; left; exact H]).
   - destruct (nth_error (m_ps st) i) as [[q [n|r0 t0]]|] eqn:NI; try (intros H; left; exact H).
-    cbn [m_ps]. intros H. destruct (Nat.eq_dec i j) as [->|N].
-    + rewrite (nth_error_set_nth_same _ _ _ _ NI) in H. discriminate.
-    + rewrite nth_error_set_nth_other in H by exact N. left. exact H.
+    destruct (if pp_cut q then bpop_poll (pp_left q) (pp_keys q) (m_d st) t else None) as [[r1 d1]|];
+      cbn [m_ps]; intros H; (destruct (Nat.eq_dec i j) as [->|N];
+      [rewrite (nth_error_set_nth_same _ _ _ _ NI) in H; discriminate
+      |rewrite nth_error_set_nth_other in H by exact N; left; exact H]).
   - destruct (blocking_form args) as [[[lft keys] tmo]|].
     + cbn [m_ps]. intros H. destruct (Nat.lt_ge_cases j (List.length (m_ps st))) as [L|G].
       * rewrite nth_error_app1 in H by exact L. left. exact H.
